@@ -161,10 +161,14 @@ class CellWrapper:
             actual_width += length
             last_adapted_col = col
 
+        remaining_cols = len([l for l in long_column_lengths if l is not None])
+
         # Fit columns into available width
         for col, length in enumerate(long_column_lengths):
             if length is None:
                 continue
+
+            remaining_cols -= 1
 
             # Keep ratios of column lengths and distribute them among the
             # available width
@@ -178,13 +182,21 @@ class CellWrapper:
                     self._column_lengths
                 )
 
+            # Every column to come needs at least one character, and so does
+            # this one
+            self._column_lengths[col] = max(
+                1, min(self._column_lengths[col], available_width - remaining_cols)
+            )
+
             self._wrap_column(col, self._column_lengths[col], formatter)
 
             # Recalculate the column length based on the actual wrapped length
             self._refresh_column_length(col)
 
-            # Recalculate the actual width based on the changed length.
-            actual_width = actual_width - length + self._column_lengths[col]
+            # The following columns share what is left, in the ratio of their
+            # lengths
+            actual_width -= length
+            available_width -= self._column_lengths[col]
 
         self._total_width = sum(self._column_lengths)
 
